@@ -9,7 +9,10 @@ WORDS = (
     "alpha beta gamma delta value size of the dataset name to use when training number rate flag path model "
     "batch epochs seed mode output input whether directory"
 ).split()
-NAMES = ["a", "b", "c", "dataset_name", "tfds_dir", "K", "as_numpy", "lr", "n_epochs", "verbose", "x", "y1", "path"]
+NAMES = ["a", "b", "c", "dataset_name", "tfds_dir", "K", "as_numpy", "lr", "n_epochs", "verbose", "x", "y1", "path",
+         # names one of which ends with / contains another, and names that end with an underscore to stay clear of a
+         # keyword or a builtin
+         "rate", "learning_rate", "size", "batch_size", "type_", "id_"]
 SCALARS = ["str", "int", "float", "bool"]
 DOTTED = ["np.ndarray", "tf.Tensor", "Callable", "dict", "torch.nn.Module"]
 
